@@ -442,6 +442,9 @@ func flagCase(c *h.Case) {
 		}
 	}
 	run.Distinct("flags|" + fmt.Sprint(c.Idx%3) + "|" + strings.Join(sig, ","))
+	if c.Idx == 300001 {
+		run.Sample(map[string]any{"kind": "command line vs file", "args": c.Data["args"], "file": c.Data["file"]})
+	}
 }
 
 func concat2(a, b []flagSpec) []flagSpec { return append(append([]flagSpec{}, a...), b...) }
